@@ -5,6 +5,8 @@ Driver of C01. Payload: space separated `key=value` fields
 
   `w=<workers> m=<w|a> o=<i|p> r=<rule>|<rule>… s=<scope> e=<event>|<event>… x=<regex table>`
 
+* `l=e` (optional): ECAL-level case — the rules are declared as sinks, the events added with
+  addEvent / addEventAndWait and the scope map; result `E` then per event `X<sorted executed names>`.
 * `m`, `o`, `w` only steer the harness (wait / async adding; index or processor first; worker count).
 * rule  `name;kinds;scopes;state;prio;suppress` — names/kinds/paths/keys hex encoded (`-` = empty
   string, `_` = empty list), lists joined by `,`; state `N` (nil map) or entries `key:pat` with
@@ -142,7 +144,10 @@ def runCase (payload : String) : String :=
         (p', outs ++ ["T" ++ bit t ++ "/M" ++ outNames m ++ "/K" ++ bit res.isSome ++ "/X" ++ x],
           nt || kindHit, bad || !specOK)
       let (_, outs, nt, bad) := evs.foldl step (({ root := root } : Proc), [], false, false)
-      let res := "a=" ++ (if errs.isEmpty then "_" else String.join (errs.map bit)) ++
+      let ecal := field fs "l" == some "e"
+      let res := if ecal then
+          "E" ++ String.join (outs.map fun o => " " ++ (match o.splitOn "/X" with | [_, x] => "X" ++ x | _ => o))
+        else "a=" ++ (if errs.isEmpty then "_" else String.join (errs.map bit)) ++
         String.join (outs.map (" " ++ ·))
       (if bad then "MODEL-DEVIATES-FROM-SPEC " else "") ++ res ++ (if nt then "\tnt=1" else "")
     | _, _, _, _ => "bad-payload"
